@@ -81,19 +81,3 @@ func H16f_ExactCapacity() {
 	vp.Freeze(quote)
 	runAll(w, quote, 1)
 }
-
-// H16g: the hash binding check alone, on a parsed quote: runs natively too (snapshot to capacity).
-func H16g_HashBindingDoesNotWrite() {
-	src := q.Valid("src_", q.Shape{AuthLen: 32, Chain: vp.Bytes("chainbytes", 20)})
-	src.SignedDataSize = uint32(590 + 32 + 20)
-	src.SignedData.CertificationData.Size = uint32(590 + 32 + 20 - 134)
-	raw, err := abi.QuoteToAbiBytes(src)
-	vp.Assume(err == nil)
-	res, err := abi.QuoteToProto(raw)
-	vp.Assume(err == nil)
-	quote := res.(*pb.QuoteV4)
-	vp.Freeze(quote, raw)
-	_ = verifyHash256(quote)
-	_, _ = getHeaderAndTdQuoteBodyInAbiBytes(quote)
-	_ = applyMask(quote.TdQuoteBody.SeamAttributes, quote.TdQuoteBody.TdAttributes)
-}
